@@ -2,6 +2,8 @@
 BASELINE = "cd /repo && /venv/bin/python -m pytest -ra -q -p no:cacheprovider --timeout=900 --continue-on-collection-errors"
 
 ENGINES = [
+    {"name": "sched", "path": "vt/sched.py", "serves_properties": ["C16", "C24", "C26", "C40"],
+     "kind_free_text": "symbolic scheduler harness: CrossHair (z3) drives the real asyncio scheduler (BaseEventLoop, fixed clock, null I/O selector) through schedules of symbolic action numbers / drain bits / weights / clock increments; sharded into per-process conditions with reachability twins; counterexamples shrunk and replayed on the stock event loop"},
     {"name": "shapesym", "path": "vt/shapesym.py", "serves_properties": ["C17", "C18"],
      "kind_free_text": "region-directed native path explorer for symbolic program builders: z3 decides branch feasibility on proxy values (vt/glue SBool/SInt), alternatives are constraint regions (robust to nondeterministic branch order), per-path solver queries, solver-proved exhaustiveness"},
     {"name": "natsym", "path": "vt/natsym.py", "serves_properties": ["C22", "C23", "C30"],
@@ -147,6 +149,23 @@ CHECKS["C22"] = dict(level="other", text="PARTIAL. (a) integer expressions of _c
 
 CHECKS["C17"] = dict(level="other", text="Real hailtop.batch DSL + LocalBackend executed natively on all pipelines of N jobs whose dependency shape (explicit/resource/both edges in either direction, self-dependencies, mention flavour, always_run call order) is chosen by solver integers and whose always_run flags and command exit statuses are z3 booleans; per explored path one z3 query decides path-condition and not(cycle => BatchException before any subprocess call, ids 1..N topological, execution in order, exact skip set, raises iff a job failed), one query per shard proves the path conditions cover the bounded space. quick: N=3 all shapes + N=4 all DAGs (explicit); thorough adds N=4 cyclic <=4 edges, N=4 all DAGs (resource), N=3 always_run-before-command, N=3 both-kind edges. 'other' because it is bounded function-level exploration, not a transition-system model.", note="subprocess in hailtop.batch.backend replaced by a recording fake (exit status = symbolic bit); bash jobs only; programs the DSL refuses while being built are counted, not violations; trusted: z3, vt/shapesym.py + vt/glue.py proxies, harness/C17_pipeline.py oracle.", technique="native symbolic path exploration (z3 branch feasibility + per-path z3 obligation + exhaustiveness query)", design_ref="6/C17")
 CHECKS["C18"] = dict(level="other", text="Real hailtop.batch DSL + ServiceBackend._async_run + aioclient.Batch (only HTTP fake) on all pipelines of N bash jobs chosen by solver integers (output kind, reads of input files/groups/earlier outputs whole or by member, fan-in, external outputs, 12 global variants incl. reverse creation order, names needing quoting, literal noise, local inputs); an independent oracle abstractly executes the submitted specs (shell word parsing, remote store, per-job local FS) and checks upload=download, consumer child of producer, byte-identical command text with references replaced by ${BATCH_TMPDIR}+shlex.quote(path), path injectivity; exhaustiveness of the explored path conditions proved by z3 per shard. quick N=3 (+small N=4), thorough N=3 full kinds/fan-in and N=4. 3 known finding classes (predicates over the shape variables), everything else would be a VIOLATION.", note="stubs: orjson(json), rich progress/track, validate_file, copy_from_dict(recorded); uid counters reset per pipeline; random tokens as drawn; bash jobs and gs:// or local inputs only; programs refused by the front end before submission are logged, not violations; trusted: z3, vt/shapesym.py, harness/C18_shell.py, harness/C18_service.py.", technique="native symbolic shape exploration (z3-driven) + abstract execution oracle", design_ref="6/C18")
+
+CHECKS["C16"] = dict(level="other",
+ text="CrossHair symbolic execution of the real FIFOWeightedSemaphore under a director on the real asyncio scheduler; weights 1..4 (capacity 4), step actions and drain bits symbolic; every path confirmed for 3 jobs k=4 (quick), 3 jobs k=5 with drain bits, 3 jobs k=6 and 4 jobs k=7 fully drained (thorough). Asserts no over-grant, capacity accounting, FIFO at quiescence, head-of-queue liveness. Bounded exhaustive-over-schedules claim; 'any number of jobs' only up to 4.",
+ note="No cancellation (not in C16); jobs use `async with sem(w)`; FIFO compared at quiescent points (order inside one callback burst not compared); event loop = BaseEventLoop with fixed clock/null selector; trusted: CrossHair/z3, CPython asyncio, harness oracle.",
+ technique="CrossHair on the real class in a symbolic asyncio scheduler harness, all paths confirmed per shard", design_ref="6/C16, 3.2")
+CHECKS["C40"] = dict(level="other",
+ text="Same harness on the real WeightedSemaphore/_AcquireManager with cancel and error-exit actions and a 3-valued drain (none / one loop iteration / quiescent); asserts weights inside <= max and, after every task has exited, value == max and a fresh acquire(max) is granted. Shapes: 2 tasks cap 2 k=4 (quick); plus 2 tasks k=5 and 3 tasks cap 3 k=4 (thorough). Schedules partitioned by what cancel() hits so each leak mechanism is a separate obligation; counterexamples replayed on the stock asyncio loop.",
+ note="Found two capacity-leak classes on the original tree (cancelled-queued-waiter-later-granted, granted-then-cancelled-before-resume), repaired by a fix: commit; the obligations now discharge. Partition predicate reads Task._fut_waiter (never the oracle). Trusted: CrossHair/z3, CPython asyncio, harness oracle.",
+ technique="CrossHair symbolic schedules (with cancellation) on the real class; replay on plain asyncio", design_ref="6/C40, 3.2")
+CHECKS["C24"] = dict(level="other",
+ text="CrossHair on the real RateLimiter.__aenter__ with up to k concurrent entries under a director-controlled integer clock; count, window (1..8), every clock advance (0..10), arrivals and arrival/wake order symbolic. Asserts t[i+count]-t[i] >= window for all admissions, sleeps only when the window is full and never past the first instant with room, and eventual admission. k=5, count<=2 (quick); k=6,7, count<=3 (thorough); every path confirmed.",
+ note="time.time/asyncio.sleep stubbed in the module namespace by a virtual clock and timer list (wake exactly at or after the deadline); integer clock - float rounding of real clocks outside the claim; 'as soon as possible' read per instant the entry runs. Trusted: CrossHair/z3, the stubs.",
+ technique="CrossHair symbolic arrival/clock schedules on the real class with a virtual clock", design_ref="6/C24, 3.2")
+CHECKS["C26"] = dict(level="other",
+ text="CrossHair on the real TimeLimitedMaxSizeCache.lookup with 2-3 concurrent lookup tasks, a director-controlled load (value or LoadError), clock and cancellations; num_slots 1..2, lifetime 1..4, 2 keys, actions/keys/dt/drain bits symbolic; k=4 (quick, 2 tasks), 3 tasks k=4 and 2 tasks k=5 (thorough). Asserts size <= num_slots, returned values younger than lifetime, one in-flight load per key, a lookup raises only its key's LoadError or its own cancellation, and liveness. Counterexamples replayed on the stock loop.",
+ note="Two known-finding classes on the current tree (cancelled-waiter-cancels-shared-load, cancelled-loader-caller-fails-other-waiters); passes on a candidate fix (shielded shared load task). prometheus metrics inert; prometheus_async.aio.time(metric, fut) modelled as a coroutine awaiting fut (package absent); clock advances only at quiescent points; shutdown() not exercised.",
+ technique="CrossHair symbolic lookup/load/cancel/clock schedules on the real class; replay on plain asyncio", design_ref="6/C26, 3.2")
 
 NOT_APPLICABLE = {
     "C37": "Scala floating-point statistics calling Apache commons-math (gamma/beta, root finding); no scalac/JVM build of "
